@@ -76,10 +76,7 @@ func (c *c17ctx) sanitized(v ssa.Value, depth int) (bool, string) {
 		}
 		return false, "the raw parameter " + x.Name() + " reaches the join without path.Clean"
 	case *ssa.Const:
-		if s, ok := sx.ConstString(x); ok && !strings.Contains(s, "..") {
-			return true, ""
-		}
-		return false, "constant " + x.String()
+		return false, "the constant " + x.String() + " is joined instead of the cleaned URL path on some path (the result is no longer base joined with the path)"
 	case *ssa.BinOp:
 		return false, "string arithmetic after cleaning (" + sx.ValPath(v) + ")"
 	}
